@@ -441,6 +441,9 @@ func boolAtoms(e ast.Expr) []string {
 				return
 			}
 		}
+		if id, ok := e.(*ast.Ident); ok && (id.Name == "true" || id.Name == "false") {
+			return
+		}
 		s := canonAtom(e)
 		if !seen[s] {
 			seen[s] = true
